@@ -10,7 +10,7 @@ Definition w_right_nested : expr := Add (Leaf 0 false) (Add (Leaf 1 false) (Leaf
 Example w_right_nested_snapshot :
   eval cfg_snapshot w_right_nested = VComb KPlain [IPlain 1 false; IPlain 2 false; IPlain 0 false].
 Proof. vm_compute. reflexivity. Qed.
-Lemma flatten_order_refuted : exists e, nofree e = true /\ eval (mkCfg false true true true true true) e <> spec_struct e.
+Lemma flatten_order_refuted : exists e, nofree e = true /\ eval (mkCfg false true true true true true true) e <> spec_struct e.
 Proof. exists w_right_nested. split; [reflexivity|]. vm_compute. discriminate. Qed.
 
 (* ---------- historical: (a + b) + (c.with_model(m) + d) stayed a plain sum ---------- *)
@@ -18,7 +18,7 @@ Definition w_mixed : expr := Add (Add (Leaf 0 false) (Leaf 1 false)) (Add (Leaf 
 Example w_mixed_snapshot :
   eval cfg_snapshot w_mixed = VComb KPlain [IPlain 0 false; IPlain 1 false; IIdx 2 true 0; IIdx 3 false 1].
 Proof. vm_compute. reflexivity. Qed.
-Lemma flatten_models_refuted : exists e, nofree e = true /\ eval (mkCfg true false true true true true) e <> spec_struct e.
+Lemma flatten_models_refuted : exists e, nofree e = true /\ eval (mkCfg true false true true true true true) e <> spec_struct e.
 Proof. exists w_mixed. split; [reflexivity|]. vm_compute. discriminate. Qed.
 
 Example guard_left_nested : guard cfg_snapshot (Add (Add (Leaf 0 false) (Leaf 1 true)) (Leaf 2 false)) = true.
@@ -40,6 +40,8 @@ Example w_free_right_now :
 Proof. vm_compute. reflexivity. Qed.
 Lemma free_right_refuted : exists e, eval cfg_now e <> spec_struct e.
 Proof. exists w_free_right. vm_compute. discriminate. Qed.
+Example w_free_right_repaired : eval cfg_fixed w_free_right = VErr.
+Proof. vm_compute. reflexivity. Qed.
 Example w_free_left_raises : eval cfg_now (Add (Free (Add (Leaf 2 false) (Leaf 3 false))) (Leaf 0 false)) = VErr.
 Proof. vm_compute. reflexivity. Qed.
 
